@@ -7,7 +7,7 @@ VERIF = os.path.dirname(os.path.dirname(os.path.abspath(__file__)))
 
 LEVEL = {
     "C01": ("reference-model monitor over try_from/TryFrom/into/Into events: exhaustive over all values of 8/16-bit reprs, boundary + sampled for wider ones, on several hundred generated declarations (all 12 reprs, negative / limit / multi-run shapes)", "runtime monitor: reference-model oracle on native debug-UB build"),
-    "C02": ("Miri (UB interpreter) on a selection covering every unsafe-site class, rustc debug-build UB checks + discriminant-membership monitor on every event of the whole corpus, valgrind memcheck on a release build in the thorough tier", "Miri + debug UB checks + memcheck + membership monitor"),
+    "C02": ("Miri (UB interpreter) on a selection covering every unsafe-site class, rustc debug-build UB checks + discriminant-membership monitor on every event of the whole corpus, valgrind memcheck on a release build in both tiers; configurations the documentation forbids because they would be unsound (range mode on holes) are probed: refused, or executed under the same checks", "Miri + debug UB checks + memcheck + membership monitor"),
     "C03": ("reference-model monitor: every variant of every generated declaration rendered through as_str / Display / Debug / IntoStr in every mode and compared byte-wise with the model name", "runtime monitor: reference-model oracle"),
     "C04": ("reference-model monitor over from_str/FromStr on names, single-edit neighbours, permutations of a name's characters, cross-overs of two names, identifiers of renamed variants, empty strings, and a volume stage of random non-names (reach: false-accept rates down to about 1e-5 per case in the quick tier, 1e-7 on large enums in the thorough tier); fn vs trait agreement; cross-mode agreement through the C09 transcripts", "runtime monitor: reference-model oracle"),
     "C05": ("reference-model monitor over MIN/MAX/next/next_back for every variant plus bounded walks, on shapes with runs at the type limits, singletons, one-wide gaps, i64 extremes and all declaration orders", "runtime monitor: reference-model oracle"),
